@@ -381,6 +381,11 @@ def _shard_entry(args):
 
     mod = importlib.import_module(modname)
     ctx = Ctx(pid, tier, seed, shard)
+    if os.environ.get('VERIF_WATCHDOG'):
+        # diagnosis only: dump the Python stack of this shard every N seconds (a case that never returns shows up here)
+        import faulthandler
+
+        faulthandler.dump_traceback_later(int(os.environ['VERIF_WATCHDOG']), repeat=True, file=open(f'/tmp/hplverif-watchdog-{pid}-{shard}.txt', 'w'))
     try:
         getattr(mod, fname)(ctx, shard, nshards, *extra)
     except HarnessError as e:
